@@ -53,11 +53,11 @@ def _add(store, stix_data, allow_custom=True, version=None):
         if "modified" in stix_obj:
             if stix_obj["id"] in store._data:
                 obj_family = store._data[stix_obj["id"]]
+                obj_family.add(stix_obj)
             else:
                 obj_family = _ObjectFamily()
+                obj_family.add(stix_obj)
                 store._data[stix_obj["id"]] = obj_family
-
-            obj_family.add(stix_obj)
 
         else:
             store._data[stix_obj["id"]] = stix_obj
@@ -75,12 +75,15 @@ class _ObjectFamily(object):
         self.latest_version = None
 
     def add(self, obj):
-        self.all_versions[obj["modified"]] = obj
-        if (
+        # Decide first, change afterwards: if the comparison fails (e.g. a
+        # dictionary with a junk "modified"), nothing must have been added.
+        is_latest = (
             self.latest_version is None or
             _timestamp_sort_key(obj["modified"]) >
             _timestamp_sort_key(self.latest_version["modified"])
-        ):
+        )
+        self.all_versions[obj["modified"]] = obj
+        if is_latest:
             self.latest_version = obj
 
     def __str__(self):
